@@ -1280,7 +1280,7 @@ func expInput(p LeafParam) string {
 	t := TypeName(p.Key.T)
 	var toks []string
 	if p.Key.IsGroup() {
-		if p.NamedSlice && !IsIface(p.Key.T) && !isVal(p.Key.T) {
+		if p.NamedSlice && !IsIface(p.Key.T) && !isVal(p.Key.T) && !isAlt(p.Key.T) {
 			t = fmt.Sprintf("sim.KS%d", p.Key.T)
 		} else {
 			t = "[]" + t
